@@ -600,6 +600,8 @@ pub fn execute(plan: &Plan) -> RunOut {
                     // vanish plans contain application pauses of up to 40 s on top of the 30 s idle timeout;
                     // all other families pause for at most 1 s and black out for at most 3 s
                     let quiet_limit_ns: u64 = if ctx.plan.family == "vanish" { 150_000_000_000 } else { 50_000_000_000 };
+                    // debugging aid only (never set by the check): lets a human see how long a parked task stays parked
+                    let quiet_limit_ns = std::env::var("VERIF_QUIET_S").ok().and_then(|s| s.parse::<u64>().ok()).map_or(quiet_limit_ns, |s| s * 1_000_000_000);
                     let mut cap_ns = ctx.plan.cfg.cap_s * 1_000_000_000;
                     let hard_ns = cap_ns * 12;
                     let mut extended = 0u32;
